@@ -34,7 +34,6 @@ pub mod h_f1;
 pub mod h_c02;
 pub mod h_c16;
 pub mod h_agree;
-pub mod h_probe;
 pub mod h_hist;
 pub mod h_records;
 pub mod h_completion;
